@@ -409,6 +409,10 @@ func failLeadsToError(c *Ctx, rule string, fn *ssa.Function, g Gate, what string
 
 func runC05(c *Ctx) {
 	p := c.P
+	// C05.0 (shared with C10 rule M, ACL row): the key state an account derives (AclState: read keys,
+	// current read-key id) is published by AddRawRecord only after the record is durable, or is
+	// realigned on the error exit — otherwise the owner encrypts under a key no log contains.
+	importShared(c, "C10", runC10, "C10.M-realign-on-error", "acl/list.aclList)", "C05.0-key-state-follows-log", 1)
 	encrypt := calleeMethod("util/crypto", "Encrypt")
 
 	// ================================================= C05.1 no plaintext by accident
